@@ -48,7 +48,7 @@ ASSUMPTIONS = [
 ]
 REQUIRED_CLAUSES = [
     "attempts-bounded", "stops-at-success", "retries-when-enabled", "no-retry-when-disabled", "non-retryable-propagates",
-    "unbounded-until-success", "wait-period", "final-outcome", "same-arguments", "documented-retryable-retries", "invocation-independent", "client:attempts", "client:wait-period", "client:final-outcome",
+    "unbounded-until-success", "wait-period", "final-outcome", "same-arguments", "documented-retryable-retries", "invocation-independent", "client:attempts", "client:wait-period", "client:final-outcome", "retry-settings-reach-the-runner",
 ]
 REQUIRED_FEATURES = {
     "retried-after-timeout": 100, "retried-after-unsuccessful": 100, "until-success": 100, "until-success>=20-attempts": 5,
@@ -648,6 +648,39 @@ def chain_of(r):
     return out
 
 
+def check_param_sources(ctx, marked):
+    """The retry settings are written in the track as parameters of the operation; between the track and the Retry wrapper sits the
+    operation's parameter source. For every operation documented as retryable the settings must come out of params() as they went in."""
+    from esrally.track import params as track_params
+    from esrally.track import track
+
+    settings = {"retries": 3, "retry-wait-period": 2, "retry-on-timeout": False, "retry-on-error": True, "retry-until-success": False}
+    body = {"index_patterns": ["idx*"], "template": {"settings": {}}}
+    trk = track.Track(
+        "verif", indices=[track.Index("idx", body={"settings": {}})], data_streams=[track.DataStream("ds")],
+        templates=[track.IndexTemplate("tpl", "idx*", {"index_patterns": ["idx*"], "settings": {}})],
+        component_templates=[track.ComponentTemplate("ct", {"template": {"settings": {}}})],
+        composable_templates=[track.IndexTemplate("cit", "idx*", body)],
+    )
+    for op in marked:
+        op_params = dict(settings)
+        op_params["operation-type"] = op
+        try:
+            source = track_params.param_source_for_operation(op, trk, op_params, "task-" + op)
+            out = source.partition(0, 1).params()
+        except Exception:  # pylint: disable=broad-except
+            # needs operation specific parameters the fixture does not have (documented per operation): not judged
+            ctx.feature("param-source-not-built")
+            continue
+        ctx.clause("retry-settings-reach-the-runner")
+        ctx.feature("param-source-probes")
+        lost = sorted(k for k, v in settings.items() if not isinstance(out, dict) or out.get(k) != v)
+        if lost:
+            ctx.violation("retry-settings-reach-the-runner", {"operation": op, "param_source": type(source).__name__, "lost": lost},
+                          f"operation type {op} is documented as retryable, but its parameter source ({type(source).__name__}) does not hand the retry settings {lost} on to the runner: "
+                          f"whatever the task configures, the operation is attempted once")
+
+
 def check_registration(ctx, env):
     from esrally.track import track
 
@@ -660,6 +693,7 @@ def check_registration(ctx, env):
     marked = sorted(op for op, d in docs.items() if d["retryable"])
     if len(marked) < 10:
         ctx.mark_inconclusive(f"only {len(marked)} operations found as 'retryable' in {TRACK_RST}: parser out of date?")
+    check_param_sources(ctx, marked)
     undocumented = []
     probes = [
         (["cerror", "fail", "ok"], {"retries": 2, "retry-on-error": True, "retry-wait-period": 3}),
